@@ -14,13 +14,17 @@
 (***************************************************************************)
 EXTENDS DenseOn, SequencesExt, Json, TLC
 CONSTANTS Formulas, MaxT, MaxN, Vals, Dev, SS, DoPrint,
+          Starts,        \* a signal begins at some s in Starts (signals that begin at different times: Dense!SigD)
           Sems, IOs      \* semantics and IO classes explored (interface-aware variants, property C06)
 VARIABLES phi, W, pos, M, emitted, err, md, hist
 vars == <<phi, W, pos, M, emitted, err, md, hist>>
 
-SigOf(S, e, vs) == LET ts == <<0>> \o SetToSortSeq(S, <) \o <<e>> IN [i \in 1..Len(ts) |-> <<ts[i], vs[i]>>]
-Signals(e) == UNION {{SigOf(S, e, vs) : vs \in [1..(Cardinality(S) + 2) -> Vals]} :
-                     S \in {S \in SUBSET (1..(e - 1)) : Cardinality(S) <= MaxN - 2}}
+SigOf(S, st, e, vs) == LET ts == <<st>> \o SetToSortSeq(S, <) \o <<e>> IN [i \in 1..Len(ts) |-> <<ts[i], vs[i]>>]
+Signals(e) == UNION {UNION {{SigOf(S, st, e, vs) : vs \in [1..(Cardinality(S) + 2) -> Vals]} :
+                            S \in {S \in SUBSET ((st + 1)..(e - 1)) : Cardinality(S) <= MaxN - 2}} :
+                     st \in {st \in Starts : st < e}}
+\* finding F-05c: a bounded operator with begin > 0 over a signal that does not begin at time 0
+LateTimed == \E q \in SubF(phi) : q.op \in Timed /\ q.a > 0 /\ \E v \in VarsOf(phi) : FirstT(W[v]) > 0
 
 Init == /\ phi \in Formulas
         /\ \E e \in 1..MaxT : W \in [VarsOf(phi) -> Signals(e)]
@@ -44,7 +48,7 @@ Spec == Init /\ [][Next]_vars
 
 NoErr == ~err
 Mono == Monotone(emitted)
-Agree == err \/ AgreesWithFM(emitted, phi, W, VarsOf(phi), SS, md)
+Agree == err \/ LateTimed \/ AgreesWithFM(emitted, phi, W, VarsOf(phi), SS, md)
 \* always true: prints a finished behaviour (formula, semantics, the batches of every update) for replay on the real monitor
 EmitBeh == (DoPrint /\ \A v \in VarsOf(phi) : pos[v] = Len(W[v])) =>
              PrintT("BEHAVIOUR " \o ToJson([phi |-> phi, md |-> md, hist |-> hist]))
